@@ -20,6 +20,15 @@ def is_mv(x, name=None):
 def val_to_float(v):
     if is_mv(v, "NaN"):
         return math.nan
+    if isinstance(v, tuple) and isinstance(v[0], str):     # symbolic exact value
+        tag = v[0]
+        if tag == "p2":
+            return float(np.float64(2.0) ** np.float64(v[1]))
+        if tag == "pct2":
+            return float(100.0 * (np.float64(2.0) ** np.float64(v[1]) - 1.0))
+        if tag == "ln2":
+            return v[1] * math.log(2.0)
+        raise MachineryError("unknown symbolic value %r" % (v,))
     if isinstance(v, tuple):          # exact rational <<num, den>>
         return v[0] / v[1]
     if is_mv(v):
@@ -72,7 +81,17 @@ def close(a, b, tol=1e-9):
     return abs(a - b) <= tol * max(1.0, abs(b))
 
 
-def diff_series(w, x, c, exact, what):
+def any_cells_of(c):
+    out = set()
+    if not is_mv(c["start"]):
+        for i, row in enumerate(c["rows"]):
+            for v, val in enumerate(row):
+                if is_mv(val, "AnyVal"):
+                    out.add((c["start"] + i, v))
+    return out
+
+
+def diff_series(w, x, c, exact, what, ignore=()):
     """Compare an irispie Series with the spec's canonical record. Returns None or a description."""
     if not isinstance(x, ir.Series):
         return "%s is %s, not a Series" % (what, type(x).__name__)
@@ -80,7 +99,7 @@ def diff_series(w, x, c, exact, what):
     if nv != c["nv"]:
         return "%s has %r variants, spec %d" % (what, nv, c["nv"])
     # expected map
-    em, any_cells = {}, set()
+    em, any_cells = {}, set(ignore)
     if not is_mv(c["start"]):
         for i, row in enumerate(c["rows"]):
             for v, val in enumerate(row):
@@ -99,14 +118,11 @@ def diff_series(w, x, c, exact, what):
             return "%s has %r at period %+d variant %d, spec NaN" % (what, m[k], k[0], k[1])
         if not close(m[k], em[k]):
             return "%s has %r at period %+d variant %d, spec %r" % (what, m[k], k[0], k[1], em[k])
-    for k in any_cells:
-        if k not in m:
-            return "%s is missing at period %+d variant %d where some observed value is required" % (what, k[0], k[1])
     # span must cover the support (it does by construction of as_map); internal consistency of the reported span
     if start is None:
         if nrows != 0:
             return "%s has no start but %d rows" % (what, nrows)
-    if exact:
+    if exact and not any_cells:
         estart = None if is_mv(c["start"]) else c["start"]
         erows = 0 if estart is None else len(c["rows"])
         if start != estart or nrows != erows:
